@@ -24,8 +24,8 @@ from harness.trace import Run
 PROP = "C18"
 THEOREMS = ["Lbfgsb.C18.pairs_are_diffs", "Lbfgsb.C18.pairs_le_maxcor", "Lbfgsb.C18.pairs_curvature",
             "Lbfgsb.C18.curv_pos", "Lbfgsb.C18.inv_bfgs_posdef", "Lbfgsb.C18.inv_bfgs_chain_posdef",
-            "Lbfgsb.C18.diag_by_unit_vectors"]
-MODULES = ["LbfgsbVerif.Props.C18"]
+            "Lbfgsb.C18.diag_by_unit_vectors", "Lbfgsb.C18.two_loop_eq_chain", "Lbfgsb.C18.two_loop_spd"]
+MODULES = ["LbfgsbVerif.Props.C18", "LbfgsbVerif.Props.C18TwoLoop"]
 
 
 # ------------------------------------------------------------------ pairs of a reported state
